@@ -609,10 +609,13 @@ func hvNumber(c *Ctx) (text, coef string, exp int) {
 		}
 	}
 	ambiguous := func(t string) bool {
-		// side condition A: exactly one mark, exactly three digits after it, non-zero integer part.
-		// The parser applies the rule to the characters after the mark, exponent included
-		// (`9.3E1` is read as 930: a C03 matter, see report), so those shapes are avoided too.
-		body := strings.ReplaceAll(t, " ", "")
+		// side condition A: exactly one mark, exactly three digits after it, non-zero integer
+		// part — judged on the mantissa (the parser's normalizeNumber splits off the exponent)
+		body := t
+		if i := strings.IndexAny(body, "Ee"); i >= 0 {
+			body = body[:i]
+		}
+		body = strings.ReplaceAll(body, " ", "")
 		marks := strings.Count(body, ",") + strings.Count(body, ".")
 		if marks != 1 {
 			return false
